@@ -370,42 +370,30 @@ def call(w, op, payload, timeout=120):
 
 
 def translators(ctx):
-    """the three regenerated tables of DESIGN 4.1 (fail closed -> recorded, hand model + correspondence remain)"""
-    from translators import idl2coq
+    """the three regenerated tables of DESIGN 4.1, each failing closed on its own (-> recorded as translator_fallback;
+    the hand model + correspondences + the strict IDL parse of real footers remain)"""
+    from translators import idl2coq, specs2coq, callsites2coq
     gen = ctx.gen_dir
-    try:
-        txt = idl2coq.translate(os.path.join(C.REPO, "fastparquet", "parquet.thrift"), name="table")
-        open(os.path.join(gen, "GenIdl.v"), "w").write(txt)
-        ok, out = C.coqc(os.path.join(gen, "GenIdl.v"), extra_q=[(gen, "PqGen")])
-        if not ok:
-            raise RuntimeError(out[-500:])
-        ctx.extra["translator_idl2coq"] = "ok"
-    except Exception as e:   # noqa
-        ctx.extra["translator_idl2coq"] = "translator_fallback: %s" % e
-        ctx.obligation("idl2coq translated fastparquet/parquet.thrift", False, str(e))
-        return
-    try:
-        from translators import specs2coq, callsites2coq
-        open(os.path.join(gen, "GenSpecs.v"), "w").write(specs2coq.translate(os.path.join(C.REPO, "fastparquet", "cencoding.pyx")))
-        open(os.path.join(gen, "GenCallsites.v"), "w").write(callsites2coq.translate(
-            [os.path.join(C.REPO, "fastparquet", f) for f in ("writer.py", "util.py", "api.py")]))
-        for f in ("GenSpecs.v", "GenCallsites.v"):
-            ok, out = C.coqc(os.path.join(gen, f), extra_q=[(gen, "PqGen")])
+    q = [(gen, "PqGen")]
+    fp = os.path.join(C.REPO, "fastparquet")
+    jobs = [
+        ("idl2coq", "GenIdl.v", lambda: idl2coq.translate(os.path.join(fp, "parquet.thrift"), name="table"), "GenIdlProofs.v"),
+        ("specs2coq", "GenSpecs.v", lambda: specs2coq.translate(os.path.join(fp, "cencoding.pyx")), "GenSpecsProofs.v"),
+        ("callsites2coq", "GenCallsites.v", lambda: callsites2coq.translate([os.path.join(fp, f) for f in ("writer.py", "util.py", "api.py")]),
+         "GenCallsitesProofs.v"),
+    ]
+    for name, out, fn, proofs in jobs:
+        try:
+            open(os.path.join(gen, out), "w").write(fn())
+            ok, o = C.coqc(os.path.join(gen, out), extra_q=q)
             if not ok:
-                raise RuntimeError(f + ": " + out[-500:])
-        ctx.extra["translator_specs_callsites"] = "ok"
-    except ImportError:
-        ctx.extra["translator_specs_callsites"] = "not built yet"
-    except Exception as e:   # noqa
-        ctx.extra["translator_specs_callsites"] = "translator_fallback: %s" % e
-        ctx.notes.append("specs2coq/callsites2coq failed closed (%s): the dynamic IDL check of real footers/page headers remains" % e)
-    gp = os.path.join(C.COQ, "genproofs", "GenThriftProofs.v")
-    if os.path.exists(gp) and ctx.extra.get("translator_specs_callsites") == "ok":
-        ctx.coq_file(gp, extra_q=[(gen, "PqGen")])
-    else:
-        gp = os.path.join(C.COQ, "genproofs", "GenIdlProofs.v")
-        if os.path.exists(gp):
-            ctx.coq_file(gp, extra_q=[(gen, "PqGen")])
+                raise RuntimeError(o[-400:])
+        except Exception as e:   # noqa
+            ctx.extra["translator_" + name] = "translator_fallback: %s" % str(e)[:300]
+            ctx.notes.append("%s failed closed (%s): its table obligations are not stated this run; the dynamic checks remain" % (name, str(e)[:200]))
+            continue
+        ctx.extra["translator_" + name] = "ok"
+        ctx.coq_file(os.path.join(C.COQ, "genproofs", proofs), extra_q=q)
 
 
 # ---- stream 1: built through the API -----------------------------------------------------------------
